@@ -267,6 +267,11 @@ class Prop(PropBase):
             if ty in TYPES_HASHABLE:
                 for _ in range(nhash):
                     cs.append(Case("W %s %s" % (ty, gen(rng)), tag="random-%s-hash" % ty))
+        # strings that reach the same value by different construction / editing routes (class string's own operations)
+        from .C17 import compare_route_cases, string_program
+        cs += compare_route_cases(rng, 600 if tier == "quick" else 10000)
+        for _ in range(600 if tier == "quick" else 10000):
+            cs.append(Case(string_program(rng), tag="string-programs"))
         return cs
 
     @classmethod
